@@ -321,3 +321,95 @@ func RecvFieldLoad(fn *ssa.Function, v ssa.Value) (string, bool) {
 	}
 	return path, true
 }
+
+// ForwardSearchE is ForwardSearch with an edge filter: the edge from block b
+// to its i-th successor is followed only when allowEdge(b, i) (nil = all).
+func ForwardSearchE(fn *ssa.Function, from ssa.Instruction, target, blocked func(ssa.Instruction) bool, allowEdge func(*ssa.BasicBlock, int) bool) ssa.Instruction {
+	if len(fn.Blocks) == 0 {
+		return nil
+	}
+	seen := map[*ssa.BasicBlock]bool{}
+	type start struct {
+		b *ssa.BasicBlock
+		i int
+	}
+	var work []start
+	if from == nil {
+		work = append(work, start{fn.Blocks[0], 0})
+		seen[fn.Blocks[0]] = true
+	} else {
+		work = append(work, start{from.Block(), InstrIndex(from) + 1})
+	}
+	for len(work) > 0 {
+		s := work[len(work)-1]
+		work = work[:len(work)-1]
+		stop := false
+		for i := s.i; i < len(s.b.Instrs); i++ {
+			ins := s.b.Instrs[i]
+			if target != nil && target(ins) {
+				return ins
+			}
+			if blocked != nil && blocked(ins) {
+				stop = true
+				break
+			}
+		}
+		if stop {
+			continue
+		}
+		for i, n := range s.b.Succs {
+			if allowEdge != nil && !allowEdge(s.b, i) {
+				continue
+			}
+			if !seen[n] {
+				seen[n] = true
+				work = append(work, start{n, 0})
+			}
+		}
+	}
+	return nil
+}
+
+// IfOnField: block b ends in `if <load of field name>`; returns true.
+func IfOnField(b *ssa.BasicBlock, name string) bool {
+	if len(b.Instrs) == 0 {
+		return false
+	}
+	iff, ok := b.Instrs[len(b.Instrs)-1].(*ssa.If)
+	if !ok {
+		return false
+	}
+	_, ok = LoadsField(iff.Cond, name)
+	return ok
+}
+
+// CallCommonOf returns the CallCommon of a call-like instruction.
+func CallCommonOf(ins ssa.Instruction) *ssa.CallCommon {
+	if ci, ok := ins.(ssa.CallInstruction); ok {
+		return ci.Common()
+	}
+	return nil
+}
+
+// ErrNonNilEdge: is block b entered only when value errV != nil ?
+func UnderErrNonNil(b *ssa.BasicBlock, errV ssa.Value) bool {
+	for _, dc := range DomConds(b) {
+		if bo, ok := dc.V.(*ssa.BinOp); ok && (bo.X == errV && IsNilConst(bo.Y) || bo.Y == errV && IsNilConst(bo.X)) {
+			if (bo.Op == token.NEQ && dc.Truth) || (bo.Op == token.EQL && !dc.Truth) {
+				return true
+			}
+		}
+	}
+	return false
+}
+
+func UnderErrNil(b *ssa.BasicBlock, errV ssa.Value) bool {
+	for _, dc := range DomConds(b) {
+		if bo, ok := dc.V.(*ssa.BinOp); ok && (bo.X == errV && IsNilConst(bo.Y) || bo.Y == errV && IsNilConst(bo.X)) {
+			if (bo.Op == token.NEQ && !dc.Truth) || (bo.Op == token.EQL && dc.Truth) {
+				return true
+			}
+		}
+	}
+	return false
+}
